@@ -26,6 +26,9 @@ CHECKS = {
  "C13": dict(level="exploration", technique="property-based testing (proptest): generated notes with multi-byte text and CRLF, position probes derived from an independent offset-tracking scan and own UTF-16 line table",
    text="For every link of a generated note the harness computes the LSP span from byte offsets with its own line table and probes inside / outside positions: definition and prepare-rename must act exactly inside, go to the resolved note, return the destination range; symbol lines must be heading lines.",
    note="Boundary positions of a span are not judged; single-line links only.", ref="7/C13"),
+ "C20": dict(level="exploration", technique="property-based testing (proptest): generated histories of imports, updates, insertions and patch-graph constructions with an external forest-invariant walker after every step",
+   text="After every step of a generated history an external walker over nodes()/graph_node()/keys()/NodePointer checks: roots are documents, DFS visits every live node exactly once, prev pointers match, navigation answers agree with ownership, walk order equals the scanned block order, ids only grow, other notes' nodes are untouched.",
+   note="Invariant over the history; the order check skips blocks without a text line.", ref="7/C20"),
  "C03": dict(level="exploration", technique="property-based testing and fuzzing: hostile structured documents and scale family, crash/abort/hang oracle via panic hook and worker process status",
    text="Every generated document is loaded, formatted, searched, path-listed, probed at every line, updated and driven through the in-memory LSP server; oracle is absence of panic, abort and hang.",
    note="Release build without overflow checks (what ships). Hang detection is a 10^4x watchdog, not a termination proof.", ref="7/C03"),
